@@ -40,7 +40,7 @@ def run(shard, rec, tier, seed):
                 continue
             rec.count("trees-staged")
             if t.generator_reused:
-                rec.count("trees-generated-by-an-instance-that-read-an-earlier-revision")
+                rec.count("trees-generated-after-a-failed-run-on-a-broken-revision" if t.prior_failed else "trees-generated-by-an-instance-that-read-an-earlier-revision")
             rng = random.Random("C19-%d-%d" % (seed, ti))
             for name, decl, path in spec.classes():
                 vg = ValueGen(t.interp, rng, "nd")
